@@ -421,6 +421,11 @@ class C12(Check):
             for engine in (False, True):
                 yield {"base": base, "ops": ops, "cache_size": 64 if engine else 2, "engine": engine, "ml": False, "ms": True,
                        "allow_empty": False}
+        # the top file turns malformed and heals again (every TypeError / RuntimeError branch of _process_top)
+        for bad in ("- a\n", "'*': 5\n", "'*': [a, '']\n", "5: [a]\n", "'(': [a]\n", "'*': [a\n", "", "[]\n", "{}\n"):
+            ops = [("get", "s1"), ("edit", "top.yaml", bad), ("get", "s1"), ("get", "s2"), ("edit", "top.yaml", BASE["top.yaml"]),
+                   ("get", "s1")]
+            yield {"base": BASE, "ops": ops, "cache_size": 64, "engine": False, "ml": False, "ms": True, "allow_empty": bad == ""}
         for base, ops in race_histories():
             for engine in (True, False):
                 if (base is BASE_T) != engine:
